@@ -151,6 +151,9 @@ impl OodFrame {
         } else {
             None
         };
+        if reader.has_more_bytes() {
+            return Err(DeserializationError::UnconsumedBytes);
+        }
 
         // if there is a Lagrange kernel, we treat its associated entries separately above
         let aux_trace_width = aux_trace_width
